@@ -8,8 +8,8 @@ from ..cfg import guards_of, parent_map
 from ..src import AnalysisError, FuncInfo, loc, norm, own_nodes
 from .c16 import class_slots, init_assigned
 
-TECH = ("writer/reader sibling agreement over HDF5 keys (ast effect extraction), constructor-parameter coverage, "
-        "Optional-field default rule for options, slot coverage of custom __getstate__")
+TECH = ("symbolic HDF5 round trips (the writer followed into a model group, the reader followed on that group, per optional attribute / empty "
+        "collection / writer flag) for six serialisable classes and TDGLData; Optional-default rule; slot coverage of __getstate__; reader cast audit")
 
 PAIRS = [
     # (module, class, writer, reader, group params of writer, of reader)
